@@ -41,6 +41,7 @@ PROPS = {
     "C19": {
         "units": ["budget"],
         "native_cex": "c19_budget_replay",
+        "native_thorough": "c19_budget_replay",
         "native_fallback": "c19_budget_replay",
         "kani": {"quick": ["c19_derived_order_complete"],
                  "thorough": ["c19_get_budget_bounded", "c19_make_annex_bounded", "c19_padding_end_to_end_bounded"]},
@@ -122,6 +123,7 @@ PROPS = {
     "C11": {
         "units": ["value"],
         "native_cex": "c11_value_order_replay",
+        "native_thorough": "c11_value_order_replay",
         "native_fallback": "c11_value_order_replay",
         "exclude_functions": {"value": ["Finalizer1::convert_witness", "Finalizer2::convert_witness", "DecodeFinalizer::convert_witness"]},
         "kani": {"quick": ["s07_usize_div_ceil_8"], "thorough": []},
@@ -193,6 +195,9 @@ PROPS = {
     },
     "C18": {
         "units": ["dag"],
+        "native_cex": "c18_dag_replay",
+        "native_fallback": "c18_dag_replay",
+        "native_thorough": "c18_dag_replay",
         "kani": {"quick": [], "thorough": []},
         "level": "proof",
         "level_text": "Unbounded deductive proof (Verus) on the real, generic PostOrderIter::next (explicit-stack algorithm): under a stack invariant proved "
@@ -219,6 +224,8 @@ PROPS = {
         "units": ["policy"],
         "kani": {"quick": [], "thorough": []},
         "native_cex": "c16_policy_sort_replay",
+        "native_thorough": "c16_policy_sort_replay",
+        "native_fallback": "c16_policy_sort_replay",
         "level": "proof",
         "level_text": "Deductive proof (Verus) on the real Policy::sort / Policy::sorted (recursive, through Arc::make_mut and the Vec of threshold children): "
                       "the result is canonical at EVERY depth (and/or children ordered, threshold children sorted, recursively) and an already canonical policy is "
@@ -240,6 +247,8 @@ PROPS = {
         "parallel_units": True,
         "kani": {"quick": [], "thorough": []},
         "native_cex": "c14_jet_codes_replay",
+        "native_thorough": "c14_jet_codes_replay",
+        "native_fallback": "c14_jet_codes_replay",
         "level": "proof",
         "level_text": "Deductive proof (Verus), exhaustive over the three finite jet families (368 Core, 471 Elements, 428 Bitcoin jets): the real `encode` of each "
                       "family writes exactly its table's code; the real `decode` (its `decode_bits!` tree expanded by the macro's own three rules and cut into sub-tree "
@@ -266,6 +275,7 @@ PROPS = {
         # the bit-level readers every decoder contract rests on (proved in unit bitstream, shared with C13)
         "functions": {"bitstream": ["BitIter::next", "BitIter::read_bit", "BitIter::read_u2", "BitIter::read_u8", "BitIter::read_natural", "BitIter::close"]},
         "native_cex": "c02_codec_replay",
+        "native_thorough": "c02_codec_replay",
         "native_fallback": "c02_codec_replay",
         "kani": {"quick": ["c13_read_cmr_complete", "c13_read_cmr_short_complete"], "thorough": ["c13_read_fail_entropy_complete"]},
         "level": "proof",
@@ -302,6 +312,7 @@ PROPS = {
         "kani": {"quick": [], "thorough": ["c01_encode_hash_bounded"]},
         "fallback": {"encode_hash": ["c01_encode_hash_bounded"]},
         "native_cex": "c02_codec_replay",
+        "native_thorough": "c02_codec_replay",
         "native_fallback": "c02_codec_replay",
         "level": "proof",
         "level_text": "Deductive proof (Verus) on the real serialiser (src/bit_encoding/encode.rs): encode_node writes exactly ncode(abstract content of the node) for every node kind, position "
@@ -327,6 +338,8 @@ PROPS = {
     "C09": {
         "units": ["cmr"],
         "native_cex": "c09_cmr_replay",
+        "native_thorough": "c09_cmr_replay",
+        "native_fallback": "c09_cmr_replay",
         "kani": {"quick": [], "thorough": []},
         "level": "proof",
         "level_text": "Deductive proof (Verus) with the hash compression function and the IV constants uninterpreted: each of Cmr's constructors (src/merkle/cmr.rs) applies the IV of its own "
